@@ -207,7 +207,7 @@ pub fn run_scenario(sc: &Scenario, chooser: Chooser, announce: Option<&(dyn Fn(u
     // simulated clock start from a state that is a function of the scenario.
     std::thread::scope(|s| {
         std::thread::Builder::new()
-            .stack_size(sc.stack_mb.max(1) << 20)
+            .stack_size(std::env::var("VERIF_STACK_MB").ok().and_then(|s| s.parse::<usize>().ok()).map(|m| m.min(sc.stack_mb)).unwrap_or(sc.stack_mb).max(1) << 20)
             .spawn_scoped(s, || {
                 crate::entropy::set_entropy(sc.entropy);
                 glaredb_core::verif::set_datatable_dims(sc.table_dims);
